@@ -93,7 +93,17 @@ bool mode_supports_window(int mode)
   return w.count(mode) != 0;
 }
 
-int mdl_presets() { return 6; }
+int mdl_single_presets() { return 6; }
+int mdl_presets() { return 11; }
+std::vector<int> preset_parts(int preset)
+{
+  // 7..11: two operations on one generator; they do not commute (each consumes deviates and/or turns the whole event)
+  static const int PAIRS[5][2] = {{1, 2}, {2, 1}, {6, 1}, {3, 6}, {5, 4}};
+  if (preset <= 0) return {};
+  if (preset <= 6) return {preset};
+  const int * q = PAIRS[(preset - 7) % 5];
+  return {q[0], q[1]};
+}
 
 namespace {
 // operations of the application's own: i_event_op is a public interface, the shipped momentum-direction-lock is one implementation of it
@@ -158,14 +168,14 @@ void apply_cfg(bxdecay0::decay0_generator & g, const GenCfg & c)
       g.set_decay_dbd_esum_range(lo, hi);
     }
   }
-  if (c.mdl > 0) g.add_operation(make_mdl(c.mdl));
+  for (int part : preset_parts(c.mdl)) g.add_operation(make_mdl(part));
 }
 
-void apply_cfg(bxdecay0::decay0_generator & g, const GenCfg & c, const std::shared_ptr<bxdecay0::i_event_op> & op)
+void apply_cfg(bxdecay0::decay0_generator & g, const GenCfg & c, const std::function<std::shared_ptr<bxdecay0::i_event_op>(int)> & own)
 {
   GenCfg c2 = c; c2.mdl = 0;
   apply_cfg(g, c2);
-  if (c.mdl > 0) g.add_operation(op ? op : make_mdl(c.mdl));
+  for (int part : preset_parts(c.mdl)) { auto op = own ? own(part) : nullptr; g.add_operation(op ? op : make_mdl(part)); }
 }
 
 bool EventRec::operator==(const EventRec & o) const
